@@ -42,7 +42,18 @@ def s_tree_case(draw):
             "verbose": draw(st.booleans()), "message": draw(ANNOT)}
 
 
+def _stable_description(vs, tag, mismatch):
+    """describe() is not a one-shot: asking again gives the same text."""
+    try:
+        a, b = mismatch.describe(), mismatch.describe()
+    except Exception:
+        return          # reported by the callers' own clauses
+    if a != b:
+        vs.append(V("describe", "%s-changes-on-second-call" % tag, "describe() gave %r and then %r" % (a[:120], b[:120])))
+
+
 def check_mismatch(vs, tag, matcher, matchee, mismatch, message=""):
+    _stable_description(vs, tag, mismatch)
     """All the 'describable' clauses for one mismatch."""
     from testtools.matchers import MismatchError, Annotate
     try:
